@@ -352,6 +352,10 @@ def eq_term(term, exp, ty):
 
 
 def run_spec(modname, rel, sp, tree, tr, rng, oracle_names):
+    if sp.get('yield_record') or sp.get('element') or sp.get('attr_stores'):
+        # record / single-element readings of the loop-tie extensions: the raw Python yields whole records / stores
+        # whole slices, which has no scalar stand-in here
+        raise NotExecutable('record / element reading (yield_record, element, attr_stores)')
     fnode = T.find_func(tree, sp['name'])
     stmts, mode = region_of(tr, fnode, sp)
     plist = []
